@@ -534,6 +534,15 @@ def F35():
         shutil.rmtree(d, ignore_errors=True)
 
 
+def F36():
+    db = TinyFlux(storage=MemoryStorage)
+    db.insert(Point(time=T0, tags={"a": "1", "b": "2"}, fields={"x": 1, "y": 2}))
+    n = db.update_all(unset_tags=(k for k in ["a"]), unset_fields=iter(["x"]))
+    p = db.all()[0]
+    if n != 1 or p.tags != {"b": "2"} or p.fields != {"y": 2}:
+        return f"update_all(unset_tags=<generator of 'a'>, unset_fields=iter(['x'])) returned {n} and left tags {p.tags}, fields {p.fields}"
+
+
 ALL = [k for k in list(globals()) if re.fullmatch(r"F\d+[a-c]?", k)]
 
 if __name__ == "__main__":
